@@ -3,23 +3,26 @@
 DEPENDS[X] = [(Y, [section labels of contracts/Y.py])]: the check of X generates and discharges those sections of Y as well, so a change inside
 a callee that breaks the contract X was proved against fails a named obligation `Y.<...>` in the check of X (with Y's replay).  Only sections
 that verify function bodies X actually calls are listed; Y's bounded runner is not run for X."""
-LISTS = ['as_list', 'lens', 'zipper']
-CMP = ['axiom validation', 'cmp', 'has_nan', 'sort']
+LISTS = ['as_list', 'is_iterable', 'len0', 'lens', 'zipper']
+CMP = ['axiom validation', 'as_primitive', 'cmp', 'has_nan', 'sort']
+# C07's as_primitive section (cmp's normalisation step) takes the loop(list, tuple) decorator from C18's wrapper.__call__ and C19's loops.wrapped / loops._wrapped
+# contracts and dt(datetime) from C04
+AP_CALLEES = [('C19', ['_wrapped', 'wrapped.positional']), ('C04', ['dt']), ('C18', ['wrapper.__call__'])]
 DEPENDS = {
     'C01': [('C19', LISTS)],
-    'C02': [('C07', CMP), ('C01', ['__getitem__.tuple', '__getitem__.column', '__iter__', '__len__'])],
+    'C02': [('C07', CMP), ('C01', ['__getitem__.tuple', '__getitem__.column', '__iter__', '__len__'])] + AP_CALLEES,
     'C03': [('C19', ['as_list', '_wrapped', '_item_by'])],
     'C04': [('C19', ['as_list'])],
     'C05': [('C04', ['_ymd', 'dt'])],
     'C06': [('C01', ['constructor', 'dict_concat', '__iter__', '__getitem__.mask', '__len__']), ('C19', LISTS)],
-    'C07': [('C19', ['as_list']), ('C01', ['__len__', '__getitem__.tuple', '__getitem__.column', 'constructor'])],
+    'C07': [('C19', ['as_list', '_wrapped', 'wrapped.positional']), ('C04', ['dt']), ('C18', ['wrapper.__call__']), ('C01', ['__len__', '__getitem__.tuple', '__getitem__.column', 'constructor'])],
     'C08': [('C19', ['as_list'])],
     'C10': [('C04', ['dt']), ('C09', ['dt_bump'])],
-    'C11': [('C07', CMP), ('C01', ['__getitem__.tuple', '__getitem__.column', 'constructor', 'dict_concat', '__iter__', '__len__'])],
+    'C11': [('C07', CMP), ('C01', ['__getitem__.tuple', '__getitem__.column', 'constructor', 'dict_concat', '__iter__', '__len__'])] + AP_CALLEES,
     'C12': [('C19', ['as_list'])],
     'C13': [('C19', LISTS)],
     'C15': [('C14', ['axiom validation', 'eq', 'in_'])],
     'C16': [('C18', ['kwargs_support'])],
     'C17': [('C19', ['as_list'])],
-    'C20': [('C19', ['as_list']), ('C01', ['__add__', '__iter__', '__len__', 'constructor', 'dict_concat']), ('C02', ['_listby', 'join', 'xor']), ('C07', CMP + ['dictable.sort'])],
+    'C20': [('C19', ['as_list', '_wrapped', 'wrapped.positional']), ('C04', ['dt']), ('C18', ['wrapper.__call__']), ('C01', ['__add__', '__iter__', '__len__', 'constructor', 'dict_concat']), ('C02', ['_listby', 'join', 'xor']), ('C07', CMP + ['dictable.sort'])],
 }
